@@ -1,6 +1,6 @@
 (* C01 — exported theorems only: each is closed by [exact] and followed by Print Assumptions. *)
 From Coq Require Import List ZArith Bool.
-From Verif Require Import Lib.Vec2 Lib.Interleave C01.Model C01.Spec C01.Proofs_Base C01.Proofs_Unique C01.Proofs_Reset C01.Proofs_Main C01.Proofs_Conc C01.Plugin C01.Proofs_Findings C01.Codec C01.Proofs_Ghost.
+From Verif Require Import Lib.Vec2 Lib.Interleave C01.Model C01.Spec C01.Proofs_Base C01.Proofs_Unique C01.Proofs_Reset C01.Proofs_Main C01.Proofs_Conc C01.Plugin C01.Proofs_Findings C01.Codec C01.Proofs_Ghost C01.Proofs_Spec.
 Import ListNotations.
 Open Scope Z_scope.
 
@@ -63,6 +63,20 @@ Theorem c01_ghost_is_last_delivered : forall sm dm h,
   ghost_matches h (run (init sm dm) h) = true.
 Proof. exact ghost_matches_holds. Qed.
 Print Assumptions c01_ghost_is_last_delivered.
+
+(* the quota attributes the model reports (parent, flags, max, min) are those of the ElasticQuota
+   objects the history delivered last — for EVERY history; prop_case compares the implementation's
+   reported attributes with that history-derived list (clause 14) *)
+Theorem c01_shapes_follow_history : forall h s n,
+  find (st_sh (run s h)) n = find (spec_shapes (st_sh s) h) n.
+Proof. exact shapes_follow_history. Qed.
+Print Assumptions c01_shapes_follow_history.
+
+Theorem c01_shapes_check_holds : forall sm dm h,
+  wf_init sm dm = true -> wf_history (init sm dm) h = true ->
+  shapes_eqb (st_sh (run (init sm dm) h)) (spec_shapes (st_sh (init sm dm)) h) = true.
+Proof. exact shapes_eqb_holds. Qed.
+Print Assumptions c01_shapes_check_holds.
 
 (* ---------- concurrency ---------- *)
 
